@@ -264,6 +264,17 @@ func QuoteMeta(s string) string {
 	return string(buf)
 }
 
+// nextRunePos returns the position one code point after pos in b (one byte
+// for an invalid encoding, and len(b)+1 past the end), which is how far the
+// scan moves after an empty match.
+func nextRunePos(b []byte, pos int) int {
+	if pos < len(b) {
+		_, width := utf8.DecodeRune(b[pos:])
+		return pos + width
+	}
+	return pos + 1
+}
+
 // isSpecial returns true if c is in the special characters string.
 func isSpecial(c byte, special string) bool {
 	for i := 0; i < len(special); i++ {
@@ -807,7 +818,7 @@ func (r *Regex) ReplaceAllLiteral(src, repl []byte) []byte {
 		// This matches Go stdlib behavior (see FindAllIndex for details).
 		//nolint:gocritic // badCond: intentional - checking empty match at lastMatchEnd
 		if start == end && start == lastMatchEnd {
-			pos++
+			pos = nextRunePos(src, pos)
 			if pos > len(src) {
 				break
 			}
@@ -830,7 +841,7 @@ func (r *Regex) ReplaceAllLiteral(src, repl []byte) []byte {
 
 		switch {
 		case start == end:
-			pos = end + 1
+			pos = nextRunePos(src, end)
 		case end > pos:
 			pos = end
 		default:
@@ -878,7 +889,7 @@ func (r *Regex) ReplaceAllLiteralString(src, repl string) string {
 
 		//nolint:gocritic // badCond: intentional - checking empty match at lastMatchEnd
 		if start == end && start == lastMatchEnd {
-			pos++
+			pos = nextRunePos(b, pos)
 			if pos > len(src) {
 				break
 			}
@@ -900,7 +911,7 @@ func (r *Regex) ReplaceAllLiteralString(src, repl string) string {
 
 		switch {
 		case start == end:
-			pos = end + 1
+			pos = nextRunePos(b, end)
 		case end > pos:
 			pos = end
 		default:
@@ -1117,7 +1128,7 @@ func (r *Regex) ReplaceAll(src, repl []byte) []byte {
 		// This matches Go's stdlib behavior for preventing duplicate empty matches.
 		//nolint:gocritic // badCond: intentional - checking empty match at lastNonEmptyMatchEnd
 		if absStart == absEnd && absStart == lastNonEmptyMatchEnd {
-			pos++
+			pos = nextRunePos(src, pos)
 			if pos > len(src) {
 				break
 			}
@@ -1141,7 +1152,7 @@ func (r *Regex) ReplaceAll(src, repl []byte) []byte {
 		switch {
 		case absStart == absEnd:
 			// Empty match: advance by 1 to avoid infinite loop
-			pos = absEnd + 1
+			pos = nextRunePos(src, absEnd)
 		case absEnd > pos:
 			pos = absEnd
 		default:
@@ -1201,7 +1212,7 @@ func (r *Regex) ReplaceAllFunc(src []byte, repl func([]byte) []byte) []byte {
 
 		//nolint:gocritic // badCond: intentional - checking empty match at lastMatchEnd
 		if start == end && start == lastMatchEnd {
-			pos++
+			pos = nextRunePos(src, pos)
 			if pos > len(src) {
 				break
 			}
@@ -1223,7 +1234,7 @@ func (r *Regex) ReplaceAllFunc(src []byte, repl func([]byte) []byte) []byte {
 
 		switch {
 		case start == end:
-			pos = end + 1
+			pos = nextRunePos(src, end)
 		case end > pos:
 			pos = end
 		default:
@@ -1275,7 +1286,7 @@ func (r *Regex) ReplaceAllStringFunc(src string, repl func(string) string) strin
 
 		//nolint:gocritic // badCond: intentional - checking empty match at lastMatchEnd
 		if start == end && start == lastMatchEnd {
-			pos++
+			pos = nextRunePos(b, pos)
 			if pos > len(src) {
 				break
 			}
@@ -1297,7 +1308,7 @@ func (r *Regex) ReplaceAllStringFunc(src string, repl func(string) string) strin
 
 		switch {
 		case start == end:
-			pos = end + 1
+			pos = nextRunePos(b, end)
 		case end > pos:
 			pos = end
 		default:
@@ -1530,7 +1541,7 @@ func (r *Regex) AllIndex(b []byte) iter.Seq[[2]int] {
 			// This matches Go stdlib behavior.
 			//nolint:gocritic // badCond: intentional - checking empty match at lastMatchEnd
 			if start == end && start == lastMatchEnd {
-				pos++
+				pos = nextRunePos(b, pos)
 				if pos > len(b) {
 					return
 				}
@@ -1542,10 +1553,14 @@ func (r *Regex) AllIndex(b []byte) iter.Seq[[2]int] {
 			if start != end {
 				lastMatchEnd = end
 			}
-			if end == pos {
-				pos++
-			} else {
+			switch {
+			case start == end:
+				// Empty match: step over one whole code point
+				pos = nextRunePos(b, end)
+			case end > pos:
 				pos = end
+			default:
+				pos++
 			}
 		}
 	}
